@@ -13,4 +13,22 @@ for q, r in sorted(F.records.items()):
     if not q.startswith("OP2Utility") or not r.get("fields"):
         continue
     out[q] = [[f["name"], f["ct"]] for f in r["fields"]]
-print(json.dumps({"records": out}, indent=1))
+# private / file-local helpers with exactly one caller: if such a helper is later inlined into that caller, the rules that
+# anchor on the helper look at the caller instead (Facts.fn falls back to it)
+from op2.invariants import callers_map
+cm = callers_map(F)
+access = {}
+for r in F.records.values():
+    for m in r["methods"]:
+        access[m["key"]] = m["access"]
+hosts = {}
+for fn in F.functions.values():
+    if not fn.file.startswith("/repo/src") or fn.d.get("ctor") or fn.d.get("implicit") or fn.d.get("lambda") or fn.d.get("virtual"):
+        continue
+    if fn.cls and access.get(fn.key) == "public":
+        continue
+    cs = sorted(c for c in cm.get(fn.key, set()) if c != fn.key)
+    if len(cs) == 1 and cs[0] in F.functions:
+        c = F.functions[cs[0]]
+        hosts["%s/%d" % (fn.qn, len(fn.params))] = {"qn": c.qn, "nparams": len(c.params), "key": c.key}
+print(json.dumps({"records": out, "single_caller_helpers": hosts}, indent=1))
